@@ -128,6 +128,7 @@ package ring
 //@   ensures[keep] forall k int :: 0 <= k && k < old(blen(rb)) ==> at(rb, k) == old(at(rb, k))
 //@   ensures[data] forall k int :: 0 <= k && k < len(p) ==> at(rb, old(blen(rb)) + k) == old(p[k])
 //@   ensures[src] unchanged(p)
+//@   ensures[buf] rb.buf.base == old(rb.buf.base) || fresh(rb.buf)
 
 //@ func Buffer.WriteByte
 //@   props C19
